@@ -355,6 +355,8 @@ def modelled_members_and_casts():
  'fn main() { let a: ?int = ?3; let b: ?int = none; println(a.is_some(), a.is_none(), b.is_some(), b.is_none(), a.unwrap(), a.unwrap_or(9), b.unwrap_or(9), a.expect("no"), a.to_string(), b.to_string(), (?[1, 2]).to_string(), (??1).to_string()); try { println(b.unwrap()); } catch e { println(e.message, e.line, e.column); } println(b.expect("expected a value")); }',
  # --- any-objects: get / set / keys / get_type / to_string; missing keys; self containment
  'fn main() { let o = new { ? }; o.set("i", 1); o.set("f", 1.5); o.set("b", true); o.set("s", "x"); o.set("l", [1]); o.set("o", new { a: 1 }); o.set("d", new { ? }); o.set("n", ?1); o.set("r", 1..2); for k in o.keys() { println(k, o.get_type(k)); } println(o.to_string() == o.to_string(), o.get("i"), o.get("none")); println(o.get_type("missing")); }',
+ # split on an empty receiver / empty separator: the number of parts
+ 'fn main() { let p = "".split(","); println(p.len(), p, p[0].len()); for x in p { println("part", x.len()); } println("".split("").len(), "a,b".split(",").len(), ",".split(",").len(), "abc".split("").len(), "a".split("abc").len()); }',
  # whole floats beyond the int64 range through to_json / to_json_indent (the forced `.0`), also nested
  'fn main() { let a = 10.0 ** 19.0; let b = 9223372036854775808.0; let c = 0.0 - 2.0 ** 63.0; let d = 2.0 ** 100.0; let o = new { a: a, b: b, c: c, d: d, e: ?a, l: [a, d, 0.5] }; println(o.to_json()); println(o.to_json_indent()); println([a, b, c, d].to_json(), a.to_string(), d); }',
  # compound assignment whose target contains an effectful sub-expression: the target is evaluated once
